@@ -1325,6 +1325,21 @@ def to_str(s, dps, strip_zeros=True, min_fixed=None, max_fixed=None,
     if exponent >= 0: return sign + digits + "e+" + str(exponent)
     if exponent < 0: return sign + digits + "e" + str(exponent)
 
+def str_to_int(x, base=10):
+    """int(x, base) for a digit string of any length. A long string is
+    converted in pieces, since the interpreter limits the length of a
+    string that int() converts at once."""
+    x = x.strip()
+    if len(x) <= 600:
+        return int(x, base)
+    if x[0] in '+-':
+        v = str_to_int(x[1:], base)
+        if x[0] == '-':
+            return -v
+        return v
+    half = len(x) // 2
+    return str_to_int(x[:-half], base) * base**half + str_to_int(x[-half:], base)
+
 def str_to_man_exp(x, base=10):
     """Helper function for from_str."""
     x = x.lower().rstrip('l')
@@ -1338,7 +1353,7 @@ def str_to_man_exp(x, base=10):
         exp = 0
     else: # == 2
         x = parts[0]
-        exp = int(parts[1])
+        exp = str_to_int(parts[1])
     # Look for radix point in mantissa
     parts = x.split('.')
     if len(parts) == 2:
@@ -1348,7 +1363,7 @@ def str_to_man_exp(x, base=10):
         # '.0', '-.0': only a sign is left
         if x in ('', '+', '-'):
             x += '0'
-    x = MPZ(int(x, base))
+    x = MPZ(str_to_int(x, base))
     return x, exp
 
 special_str = {'inf':finf, '+inf':finf, '-inf':fninf, 'nan':fnan}
@@ -1369,7 +1384,7 @@ def from_str(x, prec, rnd=round_fast):
     if '/' in x:
         p, q = x.split('/')
         p, q = p.rstrip('l'), q.rstrip('l')
-        return from_rational(int(p), int(q), prec, rnd)
+        return from_rational(str_to_int(p), str_to_int(q), prec, rnd)
 
     man, exp = str_to_man_exp(x, base=10)
 
